@@ -506,3 +506,39 @@ func Ladder(t *rapid.T, nx int) (int, [][]int, string) {
 	}
 	return next - 1 + rapid.IntRange(0, 2).Draw(t, "unusedLast"), cls, tail
 }
+
+// LongOddClauses draws a CNF over 34..50 variables with 2..4 long clauses (33..n+6 literals drawn with replacement:
+// repeated literals and complementary pairs occur, so some long clauses are tautologies) and 5..25 clauses of 1..3
+// literals. Code paths that treat long input clauses differently from short ones see both kinds side by side.
+func LongOddClauses(t *rapid.T) (int, [][]int) {
+	n := Uniform(t, 34, 50, "n")
+	var cls [][]int
+	for i, k := 0, rapid.IntRange(2, 4).Draw(t, "long"); i < k; i++ {
+		ln := Uniform(t, 33, n+6, "len")
+		cl := make([]int, 0, ln)
+		taut := Chance(t, 1, 2, "tautology")
+		for len(cl) < ln {
+			l := Lit(t, n, "l")
+			if !taut {
+				dup := false
+				for _, m := range cl {
+					if m == -l {
+						dup = true
+					}
+				}
+				if dup {
+					continue
+				}
+			}
+			cl = append(cl, l)
+		}
+		cls = append(cls, cl)
+	}
+	for i, k := 0, Uniform(t, 5, 25, "short"); i < k; i++ {
+		cls = append(cls, DistinctLits(t, n, rapid.IntRange(1, 3).Draw(t, "slen"), "s"))
+	}
+	if rapid.Bool().Draw(t, "shuffle") {
+		cls = rapid.Permutation(cls).Draw(t, "order")
+	}
+	return n, cls
+}
